@@ -328,6 +328,24 @@ func (fx *FnExec) loopEnter(st *State, fr *frame, h *loopHdr, b, pred *ssa.Basic
 	na := fx.freshConst("alloc@loop", "Int")
 	st.assume("(>= " + na + " " + st.alloc + ")")
 	st.alloc = na
+	// thread-local counters stay natural numbers
+	for _, name := range sortedKeys(mods) {
+		if !strings.HasPrefix(name, "ghost.") {
+			continue
+		}
+		g := fx.P.Specs.Ghosts[strings.TrimPrefix(name, "ghost.")]
+		if g == nil || !g.ThreadLocal || g.Ret != "Int" {
+			continue
+		}
+		cur := st.heap[name]
+		switch len(g.Args) {
+		case 0:
+			st.assume("(>= " + cur + " 0)")
+		case 1:
+			is := arrayIndexSort(mods[name].sort)
+			st.assume("(forall ((q.g " + is + ")) (>= (select " + cur + " q.g) 0))")
+		}
+	}
 	// the havocked heap is a well-formed heap
 	for _, name := range sortedKeys(mods) {
 		if f := fx.heapWF(name, mods[name].sort, st.heap[name], na); f != "" && !strings.ContainsAny(st.heap[name], "( ") {
@@ -1161,9 +1179,34 @@ func (fx *FnExec) staticModTargets(m Expr, fc *FuncContract, fn *ssa.Function) [
 	return fx.staticModTargetsTyped(m, vars, pkg)
 }
 
+// wholeFieldTarget: `modifies T.f` with T a struct type name denotes the field
+// f of EVERY T object.
+func (fx *FnExec) wholeFieldTarget(x *EField, isVar func(string) bool, pkg *types.Package) (heapVarRef, bool) {
+	id, ok := x.X.(*EIdent)
+	if !ok || isVar(id.Name) || pkg == nil {
+		return heapVarRef{}, false
+	}
+	tn, ok := pkg.Scope().Lookup(id.Name).(*types.TypeName)
+	if !ok {
+		return heapVarRef{}, false
+	}
+	stt, ok := tn.Type().Underlying().(*types.Struct)
+	if !ok {
+		return heapVarRef{}, false
+	}
+	_, f := findField(stt, x.Name)
+	if f == nil {
+		return heapVarRef{}, false
+	}
+	return heapVarRef{heapNameForField(tn.Type(), f.Name()), arrOf(fx.sortOf(f.Type()))}, true
+}
+
 func (fx *FnExec) staticModTargetsTyped(m Expr, vars map[string]types.Type, pkg *types.Package) []heapVarRef {
 	switch x := m.(type) {
 	case *EField:
+		if hv, ok := fx.wholeFieldTarget(x, func(n string) bool { _, is := vars[n]; return is }, pkg); ok {
+			return []heapVarRef{hv}
+		}
 		bt := fx.staticType(x.X, vars, pkg)
 		if bt == nil {
 			panic(evalErr{"modifies: cannot type " + x.X.String()})
